@@ -19,9 +19,9 @@ import (
 // C18 — version order total, parser faithful, gating monotone.
 
 type c18Params struct {
-	Tuples  [][4]int `json:"tuples,omitempty"`  // order: block of left-hand tuples (compared with the full set)
-	Set     string   `json:"set,omitempty"`     // which full set: grid | extreme
-	Strings []string `json:"strings,omitempty"` // parse
+	Tuples  [][4]int  `json:"tuples,omitempty"`  // order: block of left-hand tuples (compared with the full set)
+	Set     string    `json:"set,omitempty"`     // which full set: grid | extreme
+	Strings []string  `json:"strings,omitempty"` // parse
 	Gates   []c18Gate `json:"gates,omitempty"`
 }
 
@@ -100,7 +100,7 @@ func init() {
 			"all triples over the gate neighbourhood are checked for transitivity; parse: generated version strings are parsed through HTTPClient.GetVersion() against the simulated /pools; " +
 			"gate: NewDcp+Start+Close against the simulated node per (version, storage) with DCP_CONTROL keys and CLOSE_STREAM concurrency decoded from the wire. " +
 			"distinct_nontrivial = distinct left-hand tuples + distinct well-formed strings with build and edition + distinct gate cases at a gate boundary",
-		Assumptions: []string{"natural order on versions is the lexicographic order of (major,minor,patch,build)", "cbsim imitates /pools and DCP_CONTROL faithfully"},
+		Assumptions:   []string{"natural order on versions is the lexicographic order of (major,minor,patch,build)", "cbsim imitates /pools and DCP_CONTROL faithfully"},
 		MinConclusive: 10,
 		Gen: func(seed int64, tier string) []drv.Scenario {
 			var out []drv.Scenario
